@@ -30,6 +30,7 @@ package main
 // element of package time: it only matches itself), any other byte b = 100 + b.
 
 import (
+	"encoding/json"
 	"fmt"
 	"go/ast"
 	"go/parser"
@@ -573,6 +574,28 @@ func genTimeLayouts(outDir string) (string, error) {
 	emit("dateTimeParse", "DateTimeType")
 	emit("dateParse", "DateType")
 	emit("timeParse", "TimeType")
+	// raw layouts (bytes) for the text-level model Spine.TimeText, and one machine-readable line for the harness
+	rawList := func(ls []string) string {
+		var xs [][]int
+		for _, l := range ls {
+			var bs []int
+			for i := 0; i < len(l); i++ {
+				bs = append(bs, int(l[i]))
+			}
+			xs = append(xs, bs)
+		}
+		return leanListOfLists(xs)
+	}
+	var fmtRaw []string
+	if astFmtKnown {
+		fmtRaw = []string{format}
+	}
+	fmt.Fprintf(&b, "/-- static: the formatting layout as bytes (a list of one element, empty when not recovered) -/\ndef dateTimeFormatRaw : List (List Nat) := %s\n\n", rawList(fmtRaw))
+	fmt.Fprintf(&b, "/-- static: the layouts of the three getters as bytes, in the order they are tried -/\ndef dateTimeParseRaw : List (List Nat) := %s\n\ndef dateParseRaw : List (List Nat) := %s\n\ndef timeParseRaw : List (List Nat) := %s\n\n", rawList(parse["DateTimeType"]), rawList(parse["DateType"]), rawList(parse["TimeType"]))
+	{
+		js, _ := json.Marshal(map[string]any{"format": fmtRaw, "rounds": rounds, "utc": utc, "dt": parse["DateTimeType"], "date": parse["DateType"], "tod": parse["TimeType"], "parseKnown": astParseKnown, "formatKnown": astFmtKnown})
+		fmt.Fprintf(&b, "-- HARNESS %s\n\n", js)
+	}
 	b.WriteString("end Spine.Generated.TimeLayouts\n")
 	if err := writeFile(outDir, "TimeLayouts.lean", b.String()); err != nil {
 		return "", err
